@@ -1340,3 +1340,266 @@ Proof.
     + apply spec_msg_only; auto using Zmsg, ZK; destruct (pipel i); auto.
     + destruct (mail_letter_is_msg c E2) as [H1 H2]. apply spec_msg_only; auto; destruct (pipel i); auto.
 Qed.
+
+(* ================================================================== 6. well-formedness for every input *)
+Definition letter_ok (l : N) : bool := is_rcpt_letter l || is_msg_letter l.
+Definition grows (w w' : world) : Prop := exists ls, appended w w' ls /\ forallb letter_ok ls = true.
+Definition grows1 (w w' : world) : Prop := exists ls, ls <> [] /\ appended w w' ls /\ forallb letter_ok ls = true.
+Definition outcome_ok {A} (w : world) (r : res A) : Prop :=
+  match r with
+  | Ret _ _ w' => w_sock w' = true /\ grows w w'
+  | Exit c w' => c = 0 /\ grows1 w w'
+  | Unmodelled _ => True
+  end.
+
+Lemma grows_refl w : grows w w.
+Proof. exists []. split; [apply appended_refl|reflexivity]. Qed.
+Lemma grows_trans w1 w2 w3 : grows w1 w2 -> grows w2 w3 -> grows w1 w3.
+Proof.
+  intros (a & A & Fa) (b & B & Fb). exists (a ++ b). split; [eapply appended_trans; eauto|].
+  rewrite forallb_app, Fa, Fb. reflexivity.
+Qed.
+Lemma grows_grows1 w1 w2 w3 : grows w1 w2 -> grows1 w2 w3 -> grows1 w1 w3.
+Proof.
+  intros (a & A & Fa) (b & Hb & B & Fb). exists (a ++ b). split.
+  - intros H. apply app_eq_nil in H as [_ H]. contradiction.
+  - split; [eapply appended_trans; eauto|]. rewrite forallb_app, Fa, Fb. reflexivity.
+Qed.
+Lemma grows1_of w w' ls : ls <> [] -> appended w w' ls -> forallb letter_ok ls = true -> grows1 w w'.
+Proof. intros. exists ls. auto. Qed.
+Lemma grows1_of' w w' ls : appended w w' ls -> ls <> [] -> forallb letter_ok ls = true -> grows1 w w'.
+Proof. intros. exists ls. auto. Qed.
+Lemma grows_of w w' ls : appended w w' ls -> forallb letter_ok ls = true -> grows w w'.
+Proof. intros. exists ls. auto. Qed.
+
+(** a world that differs only on the socket side *)
+Definition same_status (w w0 : world) : Prop := w_status w0 = w_status w /\ w_sock w0 = w_sock w.
+Lemma grows_same w w0 w' : same_status w w0 -> grows w0 w' -> grows w w'.
+Proof. intros [S _] (ls & (reps & H1 & H2 & H3) & F). exists ls. split; [|exact F]. exists reps. rewrite H1, S. auto. Qed.
+Lemma grows1_same w w0 w' : same_status w w0 -> grows1 w0 w' -> grows1 w w'.
+Proof. intros [S _] (ls & Hne & (reps & H1 & H2 & H3) & F). exists ls. repeat split; auto. exists reps. rewrite H1, S. auto. Qed.
+Lemma outcome_same {A} w w0 (r : res A) : same_status w w0 -> outcome_ok w0 r -> outcome_ok w r.
+Proof.
+  intros HS. destruct r as [a scr w'|c w'|y]; cbn; auto.
+  - intros [K G]. split; [exact K|eapply grows_same; eauto].
+  - intros [K G]. split; [exact K|eapply grows1_same; eauto].
+Qed.
+
+Lemma letter_ok_rcpt c : letter_ok (rcpt_letter c) = true.
+Proof. unfold letter_ok. rewrite rcpt_letter_is_rcpt. reflexivity. Qed.
+Lemma letter_ok_dot c : letter_ok (dot_letter c) = true.
+Proof. unfold letter_ok. rewrite dot_letter_is_msg. apply orb_true_r. Qed.
+Lemma letter_ok_mail c : is_2xx c = false -> letter_ok (mail_letter c) = true.
+Proof. intros H. unfold letter_ok. destruct (mail_letter_is_msg c H) as [-> _]. apply orb_true_r. Qed.
+Lemma letter_ok_Z : letter_ok L_Z = true. Proof. reflexivity. Qed.
+
+Lemma grows1_grows w1 w2 w3 : grows1 w1 w2 -> grows w2 w3 -> grows1 w1 w3.
+Proof.
+  intros (a & Ha & A & Fa) (b & B & Fb). exists (a ++ b). split.
+  - intros H. apply app_eq_nil in H as [H _]. contradiction.
+  - split; [eapply appended_trans; eauto|]. rewrite forallb_app, Fa, Fb. reflexivity.
+Qed.
+Lemma grows1_weak w w' : grows1 w w' -> grows w w'.
+Proof. intros (ls & _ & A & F). exists ls. auto. Qed.
+
+(** [strict]: a normal return also wrote at least one report *)
+Definition outcome_okb {A} (strict : bool) (w : world) (r : res A) : Prop :=
+  match r with
+  | Ret _ _ w' => w_sock w' = true /\ (if strict then grows1 w w' else grows w w')
+  | Exit c w' => c = 0 /\ grows1 w w'
+  | Unmodelled _ => True
+  end.
+
+Lemma outcome_okb_same {A} b w w0 (r : res A) : same_status w w0 -> outcome_okb b w0 r -> outcome_okb b w r.
+Proof.
+  intros HS. destruct r as [a scr w'|c w'|y]; cbn; auto.
+  - intros [K G]. split; [exact K|]. destruct b; [eapply grows1_same; eauto|eapply grows_same; eauto].
+  - intros [K G]. split; [exact K|eapply grows1_same; eauto].
+Qed.
+
+Lemma rcpt_reply_ok scr w : w_sock w = true -> outcome_okb true w (checkreply (Some QR_ST_RCPT) None QR_MASK_RCPT scr w).
+Proof.
+  intros Hs. pose proof (rcpt_reply_sem scr w Hs) as H. destruct (take_reply scr) as [c m rest| |c].
+  - destruct H as (w' & -> & K & _ & A). split; [exact K|]. apply (grows1_of' _ _ _ A); [discriminate|].
+    cbn [forallb]. rewrite letter_ok_rcpt. reflexivity.
+  - destruct H as (w' & -> & _ & A). split; [reflexivity|]. apply (grows1_of' _ _ _ A); [discriminate|]. reflexivity.
+  - destruct H as (w' & -> & _ & A). split; [reflexivity|]. destruct (is_2xx c).
+    + apply (grows1_of' _ _ _ A); [discriminate|]. cbn [forallb]. rewrite letter_ok_rcpt. reflexivity.
+    + apply (grows1_of' _ _ _ A); [discriminate|]. cbn [forallb]. rewrite letter_ok_rcpt. reflexivity.
+Qed.
+
+(** MAIL FROM: a refusal (result >= 300) has written its report *)
+Lemma mail_reply_ok rhost scr w : w_sock w = true ->
+  match checkreply (Some QR_ST_MAIL) (Some (mailerrmsg rhost)) QR_MASK_MAIL scr w with
+  | Ret r _ w' => w_sock w' = true /\ grows w w' /\ ((QR_FAIL_FROM <=? r)%Z = true -> grows1 w w')
+  | Exit c w' => c = 0 /\ grows1 w w'
+  | Unmodelled _ => True
+  end.
+Proof.
+  intros Hs. pose proof (mail_reply_sem rhost scr w Hs) as H. destruct (take_reply scr) as [c m rest| |c] eqn:ET.
+  - destruct H as (w' & -> & K & _ & A). split; [exact K|].
+    rewrite fail_from by (apply take_reply_code_range in ET; lia). destruct (is_2xx c) eqn:E.
+    + split; [apply (grows_of _ _ _ A); reflexivity|discriminate].
+    + assert (G : grows1 w w').
+      { apply (grows1_of' _ _ _ A); [discriminate|]. cbn [forallb]. rewrite letter_ok_mail by exact E. reflexivity. }
+      split; [apply grows1_weak; exact G|intros _; exact G].
+  - destruct H as (w' & -> & _ & A). split; [reflexivity|]. apply (grows1_of' _ _ _ A); [discriminate|]. reflexivity.
+  - destruct H as (w' & -> & _ & A). split; [reflexivity|]. destruct (is_2xx c) eqn:E.
+    + apply (grows1_of' _ _ _ A); [discriminate|]. reflexivity.
+    + apply (grows1_of' _ _ _ A); [discriminate|]. cbn [forallb]. rewrite letter_ok_mail by exact E. reflexivity.
+Qed.
+
+Lemma drain_ok k : forall scr w, w_sock w = true -> outcome_okb false w (drain_replies k scr w).
+Proof.
+  intros scr w Hs. pose proof (drain_replies_sem k scr w Hs) as H. destruct (whole_replies k scr).
+  - destruct H as (w' & rest & -> & K & _ & A). split; [exact K|]. apply (grows_of _ _ _ A). reflexivity.
+  - destruct H as (w' & -> & _ & A). split; [reflexivity|]. apply (grows1_of' _ _ _ A); [discriminate|]. reflexivity.
+Qed.
+
+Lemma rcpt_replies_ok k : forall stat scr w, w_sock w = true ->
+  outcome_okb (negb (Nat.eqb k 0)) w (rcpt_replies k stat scr w).
+Proof.
+  induction k as [|k IH]; intros stat scr w Hs; cbn [rcpt_replies].
+  - split; [exact Hs|apply grows_refl].
+  - pose proof (rcpt_reply_ok scr w Hs) as H. cbn [Nat.eqb negb].
+    destruct (checkreply (Some QR_ST_RCPT) None QR_MASK_RCPT scr w) as [r scr1 w1|c w1|y]; cbn in H |- *; auto.
+    destruct H as [K G]. specialize (IH (if (r <? QR_RCPT_OK_BELOW)%Z then 0%Z else stat) scr1 w1 K).
+    destruct (rcpt_replies k _ scr1 w1) as [r2 scr2 w2|c w2|y]; cbn in IH |- *; auto.
+    + destruct IH as [K2 G2]. split; [exact K2|]. eapply grows1_grows; [exact G|].
+      destruct (negb (Nat.eqb k 0)); [apply grows1_weak|]; exact G2.
+    + destruct IH as [K2 G2]. split; [exact K2|eapply grows_grows1; [apply grows1_weak; exact G|exact G2]].
+Qed.
+
+Lemma net_writen_cmd_same parts w w0 : net_writen_cmd parts w = Ok w0 -> same_status w w0.
+Proof.
+  unfold net_writen_cmd. destruct (map cstr parts) as [|s0 ps]; [discriminate|].
+  destruct (net_writen s0 ps); cbn [bind]; try discriminate. intros H; inversion H; subst. split; reflexivity.
+Qed.
+
+Lemma rcpt_each_ok rs : forall stat scr w, w_sock w = true ->
+  outcome_okb (negb (Nat.eqb (length rs) 0)) w (rcpt_each rs stat scr w).
+Proof.
+  induction rs as [|r rs IH]; intros stat scr w Hs; cbn [rcpt_each].
+  - split; [exact Hs|apply grows_refl].
+  - cbn [length Nat.eqb negb].
+    destruct (net_writen_cmd [QR_CMD_RCPT; r; QR_CMD_RCPT_END] w) as [w0|y|] eqn:EW; cbn; auto.
+    pose proof (net_writen_cmd_same _ _ _ EW) as HS. apply (outcome_okb_same true w w0 _ HS).
+    assert (K0 : w_sock w0 = true) by (destruct HS as [_ ->]; exact Hs).
+    pose proof (rcpt_reply_ok scr w0 K0) as H.
+    destruct (checkreply (Some QR_ST_RCPT) None QR_MASK_RCPT scr w0) as [c scr1 w1|c w1|y]; cbn in H |- *; auto.
+    destruct H as [K G]. specialize (IH (if (c <? QR_RCPT_OK_BELOW)%Z then 0%Z else stat) scr1 w1 K).
+    destruct (rcpt_each rs _ scr1 w1) as [r2 scr2 w2|c2 w2|y]; cbn in IH |- *; auto.
+    + destruct IH as [K2 G2]. split; [exact K2|]. eapply grows1_grows; [exact G|].
+      destruct (negb (Nat.eqb (length rs) 0)); [apply grows1_weak|]; exact G2.
+    + destruct IH as [K2 G2]. split; [exact K2|eapply grows_grows1; [apply grows1_weak; exact G|exact G2]].
+Qed.
+
+Lemma pipe_rcpts_same rs idx n cur w : same_status w (pipe_rcpts idx n rs cur w).
+Proof.
+  revert idx cur w. induction rs as [|r rs IH]; intros idx cur w; cbn [pipe_rcpts]; [split; reflexivity|].
+  destruct (_ || _).
+  - destruct (IH (S idx) [QR_CMD_RCPT] (net_write_multiline ((cur ++ [r]) ++ [QR_CMD_PIPE_END]) w)) as [A B].
+    split; [rewrite A|rewrite B]; reflexivity.
+  - apply IH.
+Qed.
+
+(** send_envelope(): a non-zero result (no recipient accepted) has written at least one report *)
+Lemma send_envelope_ok i scr w : w_sock w = true -> i_rcpts i <> [] ->
+  match send_envelope i scr w with
+  | Ret r _ w' => w_sock w' = true /\ grows w w' /\ (r <> 0%Z -> grows1 w w')
+  | Exit c w' => c = 0 /\ grows1 w w'
+  | Unmodelled _ => True
+  end.
+Proof.
+  intros Hs Hne. assert (Hn : negb (Nat.eqb (length (i_rcpts i)) 0) = true) by (destruct (i_rcpts i); [congruence|reflexivity]).
+  unfold send_envelope. destruct (has (i_ext i) QR_ESMTP_PIPELINING).
+  - set (w1 := net_write_multiline _ w). set (w2 := pipe_rcpts _ _ _ _ w1).
+    assert (HS : same_status w w2).
+    { destruct (pipe_rcpts_same (tl (i_rcpts i)) 1 (length (i_rcpts i)) [QR_CMD_RCPT] w1) as [A B]. fold w2 in A, B.
+      split; [rewrite A|rewrite B]; reflexivity. }
+    assert (K2 : w_sock w2 = true) by (destruct HS as [_ ->]; exact Hs).
+    pose proof (mail_reply_ok (i_rhost i) scr w2 K2) as H.
+    destruct (checkreply (Some QR_ST_MAIL) _ QR_MASK_MAIL scr w2) as [r scr1 w3|c w3|y]; auto.
+    2: { destruct H as [-> G]. split; [reflexivity|eapply grows1_same; eauto]. }
+    destruct H as (K & G & GF). destruct (QR_FAIL_FROM <=? r)%Z.
+    + specialize (GF eq_refl). pose proof (drain_ok (length (i_rcpts i)) scr1 w3 K) as HD.
+      destruct (drain_replies _ scr1 w3) as [u scr2 w4|c w4|y]; cbn in HD |- *; auto.
+      * destruct HD as [K4 G4]. assert (G14 : grows1 w w4) by (eapply grows1_same; eauto; eapply grows1_grows; eauto).
+        split; [exact K4|]. split; [apply grows1_weak; exact G14|intros _; exact G14].
+      * destruct HD as [-> G4]. split; [reflexivity|]. eapply grows1_same; eauto. eapply grows_grows1; eauto.
+    + pose proof (rcpt_replies_ok (length (i_rcpts i)) 1%Z scr1 w3 K) as HR. rewrite Hn in HR.
+      destruct (rcpt_replies _ _ scr1 w3) as [u scr2 w4|c w4|y]; cbn in HR |- *; auto.
+      * destruct HR as [K4 G4]. assert (G14 : grows1 w w4) by (eapply grows1_same; eauto; eapply grows_grows1; eauto).
+        split; [exact K4|]. split; [apply grows1_weak; exact G14|intros _; exact G14].
+      * destruct HR as [-> G4]. split; [reflexivity|]. eapply grows1_same; eauto. eapply grows_grows1; eauto.
+  - destruct (net_writen_cmd (mail_parts i) w) as [w1|y|] eqn:EW; auto.
+    pose proof (net_writen_cmd_same _ _ _ EW) as HS.
+    assert (K1 : w_sock w1 = true) by (destruct HS as [_ ->]; exact Hs).
+    pose proof (mail_reply_ok (i_rhost i) scr w1 K1) as H.
+    destruct (checkreply (Some QR_ST_MAIL) _ QR_MASK_MAIL scr w1) as [r scr1 w2|c w2|y]; auto.
+    2: { destruct H as [-> G]. split; [reflexivity|eapply grows1_same; eauto]. }
+    destruct H as (K & G & GF). destruct (QR_FAIL_FROM <=? r)%Z.
+    + specialize (GF eq_refl). assert (G12 : grows1 w w2) by (eapply grows1_same; eauto).
+      split; [exact K|]. split; [apply grows1_weak; exact G12|intros _; exact G12].
+    + pose proof (rcpt_each_ok (i_rcpts i) 1%Z scr1 w2 K) as HR. rewrite Hn in HR.
+      destruct (rcpt_each _ _ scr1 w2) as [u scr2 w4|c w4|y]; cbn in HR |- *; auto.
+      * destruct HR as [K4 G4]. assert (G14 : grows1 w w4) by (eapply grows1_same; eauto; eapply grows_grows1; eauto).
+        split; [exact K4|]. split; [apply grows1_weak; exact G14|intros _; exact G14].
+      * destruct HR as [-> G4]. split; [reflexivity|]. eapply grows1_same; eauto. eapply grows_grows1; eauto.
+Qed.
+
+Lemma ref_data_letters rest : forallb letter_ok (fst (ref_data rest)) = true /\ fst (ref_data rest) <> [].
+Proof.
+  unfold ref_data. destruct rest as [|[l| | | | |] rest']; try (split; [reflexivity|discriminate]).
+  destruct (line_code l) as [c|]; [|split; [reflexivity|discriminate]].
+  destruct (Nat.eqb c 354).
+  - unfold dot_letters. destruct (take_reply rest') as [c2 m r| |c2]; cbn [fst forallb]; rewrite ?letter_ok_dot;
+      split; try reflexivity; discriminate.
+  - destruct (Nat.leb 500 c); split; try reflexivity; discriminate.
+Qed.
+
+Lemma data_then_exit_ok i rest w : w_sock w = true -> outcome_okb false w (data_then_exit i rest w).
+Proof.
+  intros Hs. pose proof (send_data_sem i rest w Hs) as H. destruct (ref_data_letters rest) as [F Hne].
+  destruct (ref_data rest) as [ls b]. cbn [fst] in *. destruct H as (w' & q & -> & _ & _ & A).
+  split; [reflexivity|]. exists ls. auto.
+Qed.
+
+(** every run ends in exit(0) after writing at least one report; every byte of the status stream
+    belongs to a NUL-terminated report that starts with one of r s h K Z D *)
+Theorem main_wellformed i :
+  match qremote_main i with
+  | Obs code status net =>
+      code = 0 /\ exists reps, reps <> [] /\ status = flat reps
+        /\ Forall (fun r => nulfree r /\ letter_ok (hd 0%N r) = true) reps
+  | ObsUnmodelled _ => True          (* net_writen's own contract broken: only with over-long command lines *)
+  | ObsReturned => False
+  end.
+Proof.
+  assert (Hfin : forall w', grows1 (mkW [] [] [] true) w' ->
+            exists reps, reps <> [] /\ w_status w' = flat reps /\ Forall (fun r => nulfree r /\ letter_ok (hd 0%N r) = true) reps).
+  { intros w' (ls & Hne & (reps & H1 & H2 & H3) & F). cbn [w_status app] in H1.
+    exists reps. split; [intros ->; cbn in H2; congruence|].
+    split; [exact H1|]. subst ls. clear Hne H1. induction reps as [|r reps IH]; [constructor|].
+    inversion H3; subst. cbn [map forallb] in F. apply andb_true_iff in F as [F1 F2].
+    constructor; [|apply IH; auto]. split; [apply H1|exact F1]. }
+  unfold qremote_main. destruct (Nat.eqb (length (i_rcpts i)) 0) eqn:En.
+  - destruct (main_noargs i) as (zr & E & (Hne & Hn) & Hl).
+    { destruct (i_rcpts i); [reflexivity|discriminate]. }
+    unfold qremote_main in E. rewrite En in E. rewrite E. split; [reflexivity|].
+    exists [zr]. repeat split; auto; [discriminate|]. constructor; [|constructor]. split; [exact Hn|rewrite Hl; reflexivity].
+  - set (w := mkW [] [] [] true).
+    assert (Hne : i_rcpts i <> []) by (intros H; rewrite H in En; discriminate).
+    pose proof (send_envelope_ok i (i_script i) w eq_refl Hne) as HE.
+    destruct (send_envelope i (i_script i) w) as [r scr1 w1|c w1|y]; auto.
+    + destruct HE as (K1 & G1 & G1'). destruct (Z.eqb_spec r 0) as [->|Hr]; cbn [negb].
+      * pose proof (data_then_exit_ok i scr1 w1 K1) as HD. unfold data_then_exit in HD.
+        destruct (send_data i scr1 w1) as [u scr2 w2|c w2|y]; auto.
+        { destruct (shutdown_clean w2) as [c0 w0]. unfold exit_with in *. cbn [fst snd] in *. cbn in HD.
+          destruct HD as [-> G2]. split; [reflexivity|]. apply Hfin. eapply grows_grows1; eauto. }
+        { cbn in HD. destruct HD as [-> G2]. split; [reflexivity|]. apply Hfin. eapply grows_grows1; eauto. }
+      * (* no recipient accepted: the reports written so far are the output *)
+        destruct (clean_after w1 K1) as (w' & E & _ & S'). rewrite E. split; [reflexivity|]. rewrite S'.
+        apply Hfin. exact (G1' Hr).
+    + destruct HE as [-> G1]. split; [reflexivity|]. apply Hfin. exact G1.
+Qed.
